@@ -76,6 +76,18 @@ def verdictOf (names : List String) (verd : List Char) (n : String) : Bool :=
   | some (_, c) => c == 'T'
   | none => false
 
+/-- `m1|e1,m2|e2,... leafhex[ MODIFIED]` as printed by the harness -/
+def parseGoWalk (s : String) : Option (List (Bytes × Bytes) × Bytes) :=
+  match s.splitOn " " with
+  | c :: leaf :: _ => do
+    let ch ← (c.splitOn ",").mapM fun e =>
+      match e.splitOn "|" with
+      | [m, x] => do let mb ← unhex m; let xb ← unhex x; pure (mb, xb)
+      | _ => none
+    let lf ← unhex leaf
+    pure (ch, lf)
+  | _ => none
+
 def chainStr (c : List Info) : String :=
   String.intercalate "," (c.map fun i => bhex i.mime ++ "|" ++ bhex i.ext)
 
@@ -132,7 +144,10 @@ def handle (line : String) : String :=
         let m := chainStr chain ++ " " ++ bhex leafStr
         let d1 := if bad.isEmpty then "" else "DIFF verdicts " ++ String.intercalate ";" bad
         let d2 := if m == goRes then "" else s!"DIFF walk model={m}"
-        let sp := Spec.walkSpec raw l chain cs leafStr
+        -- the specification oracle judges the implementation's own result
+        let sp := match parseGoWalk goRes with
+          | some (gchain, gleaf) => Spec.walkSpec raw l gchain gleaf
+          | none => "SPEC C01:no-result(" ++ goRes ++ ")"
         let all := [d1, d2, sp].filter (· != "")
         if all.isEmpty then "OK" else String.intercalate " ; " all
       | _, _, _, _ => "BAD args"
